@@ -208,7 +208,8 @@ impl World {
             }
         }
         for v in &self.fx.validators {
-            for d in self.fx.users.iter().chain(o.contracts.keys()) {
+            // every address that can sign: users, never-seen addresses, contracts
+            for d in self.fx.users.iter().chain(self.fx.fresh.iter()).chain(std::iter::once(&self.fx.nowhere)).chain(o.contracts.keys()) {
                 if let Ok(Some(fd)) = self.app.wrap().query_delegation(d.clone(), v.clone()) {
                     o.delegations.insert((d.clone(), v.clone()), fd.amount.amount.u128());
                 }
